@@ -649,6 +649,12 @@ func c08FirstDiff(impl, model string) (string, string) {
 			continue
 		}
 		ia, ma := strings.Fields(is[sec]), strings.Fields(ms[sec])
+		if is[sec] == "." {
+			ia = nil
+		}
+		if ms[sec] == "." {
+			ma = nil
+		}
 		for k := 0; k < len(ia) || k < len(ma); k++ {
 			a, b := "(no further item)", "(no further item)"
 			if k < len(ia) {
@@ -751,6 +757,7 @@ func c08TokenStream(c *Ctx) {
 	}
 	reps := c.Drv.AskBatch(reqs)
 	ntok, nbytes := 0, 0
+	reported := map[string]bool{}
 	for i, s := range streams {
 		g, toks, pos, panicked := c08GoLex(s.src)
 		r.count("stream:"+s.src, len(toks) > 1)
@@ -797,6 +804,10 @@ func c08TokenStream(c *Ctx) {
 				gx, _, _, p := c08GoLex(x)
 				return p == "" && gx != c.Drv.Ask("C08.lex", hx(x))
 			}, 300)
+			if reported[small] {
+				continue
+			}
+			reported[small] = true
 			gs, _, _, _ := c08GoLex(small)
 			ms := c.Drv.Ask("C08.lex", hx(small))
 			impl, model := c08FirstDiff(gs, ms)
